@@ -9,16 +9,16 @@ import (
 
 func init() {
 	register(&Rule{
-		Name: "SWAPBOTH",
-		Doc: "(a) no assignment assigns an expression to itself (x[i], x[j] = x[i], x[j] is a no-op, not a swap); (b) every Swap(i, j) method of a struct that carries parallel slices exchanges elements i and j of EVERY slice field — a sort that permutes one array but not its twin pairs old nodes with the wrong new values",
+		Name:     "SWAPBOTH",
+		Doc:      "(a) no assignment assigns an expression to itself (x[i], x[j] = x[i], x[j] is a no-op, not a swap); (b) every Swap(i, j) method of a struct that carries parallel slices exchanges elements i and j of EVERY slice field — a sort that permutes one array but not its twin pairs old nodes with the wrong new values",
 		Configs:  "NP",
 		Floor:    map[string]int{"N": 500, "P": 500},
 		Controls: 1,
 		Run:      runSwapBoth,
 	})
 	register(&Rule{
-		Name: "CONSTAFFINITY",
-		Doc: "a function whose name says which number kind it formats (…i64…/…int64… vs …f64…/…float64…) reserves space with the constant of the same kind (MaxInt64StringLen vs MaxFloat64StringLen): the float formatter needs up to 32 bytes, the integer bound is 21",
+		Name:     "CONSTAFFINITY",
+		Doc:      "a function whose name says which number kind it formats (…i64…/…int64… vs …f64…/…float64…) reserves space with the constant of the same kind (MaxInt64StringLen vs MaxFloat64StringLen): the float formatter needs up to 32 bytes, the integer bound is 21",
 		Configs:  "N",
 		Floor:    map[string]int{"N": 2},
 		Controls: 1,
